@@ -64,12 +64,15 @@ type Req struct {
 	// dispatched and waits for the body) and answered before the body is sent: a state change racing
 	// with a request that already passed the router's state gate
 	Mid *Req `json:"mid,omitempty"`
+	// Dup: the same request is sent twice at the same moment (a client retry overlapping the original)
+	Dup bool `json:"dup,omitempty"`
 }
 
 type RepState struct {
 	Mode     string   `json:"mode"`            // RW | WO | ERR
 	Override *[]string `json:"chain,omitempty"` // chain reported after setup (nil: whatever setup produced)
 	Rev      int64    `json:"rev,omitempty"`
+	IP       string   `json:"ip,omitempty"` // address of this fake instead of the default 127.x.0.y (e.g. "[::1]")
 }
 
 type State struct {
@@ -207,7 +210,14 @@ type fakeFactory struct {
 	reps map[string]*fakeRep
 }
 
+// connecting to a replica takes time (the controller drops its lock meanwhile): once the setup is over every
+// Create lasts 40 ms, so that two overlapping requests are both inside it
+var slowCreate int32
+
 func (ff *fakeFactory) Create(address string) (types.Backend, error) {
+	if atomic.LoadInt32(&slowCreate) == 1 {
+		time.Sleep(40 * time.Millisecond)
+	}
 	ff.mu.Lock()
 	defer ff.mu.Unlock()
 	if r, ok := ff.reps[address]; ok {
@@ -324,6 +334,9 @@ func (ch *child) setupController(st State, ipb int) error {
 	var fakes []*fakeRep
 	for i := 0; i < n; i++ {
 		ip := fmt.Sprintf("127.%d.0.%d", ipb, i+1)
+		if i < len(st.Replicas) && st.Replicas[i].IP != "" {
+			ip = st.Replicas[i].IP
+		}
 		addr := "tcp://" + ip + ":9502"
 		f := &fakeRep{addr: addr, chain: []string{"volume-head-000.img"}, mode: types.Mode("INIT"), size: 1 << 30,
 			mon: make(types.MonitorChannel, 1), rev: 1}
@@ -609,7 +622,17 @@ func childMain(workdir string, ipb int) {
 			atomic.StoreInt32(&ch.loadOn, 1)
 			time.Sleep(5 * time.Millisecond)
 		}
+		var twin chan struct{}
+		if r.Dup {
+			atomic.StoreInt32(&slowCreate, 1)
+			twin = make(chan struct{})
+			go func() { ch.rawRequest(host, r, to); close(twin) }()
+		}
 		st, body, rerr := ch.rawRequest(host, r, to)
+		if twin != nil {
+			<-twin
+			atomic.StoreInt32(&slowCreate, 0)
+		}
 		atomic.StoreInt32(&ch.loadOn, 0)
 		res := Res{St: st, Ms: time.Since(t0).Milliseconds(), Body: body, BodyLock: ch.bodyLock}
 		if rerr != nil {
